@@ -241,6 +241,11 @@ def run(prog, rep, tier='quick'):
                     n_axis += 1
                     label = '%s axis [NFFT %s]' % (side, parity)
                     where = loc(g.mod, g.node)
+                    ixc = [c_ for c_ in itp.conflicts if c_.comp == 'index']
+                    if ixc:
+                        rep.violation('axis', g.qname, label + ' grid', '%s: the reported frequencies are not the bins k*sampling/NFFT in '
+                                      'order' % ixc[0].msg, loc(ixc[0].mod, ixc[0].node))
+                        continue
                     want = h if side == 'onesided' else N
                     cnt = out.n if isinstance(out, SeqV) else None
                     if cnt is None:
